@@ -19,6 +19,15 @@ CHECKS = {
         note='Trusted: TLC, BigInteger rationals, float projection. Tolerance 1e-9 relative. CLGS/AGS (model 4) and SUTRA not covered. '
              'Continuous inputs sampled by seed.',
         tech='TLA+ spec (LevelizedDef/Levelized.tla) model-checked with TLC; TLC-generated vectors replayed into code; TLC trace validation'),
+    'C03': dict(
+        cat='model_checking', ref='DESIGN.md section 5 C03',
+        text='CostRollup.tla models the CAPEX/OPEX assembly of Economics.Calculate as actions in code order and is model-checked over '
+             'every override-flag subset x plant class x incentive switch (closed forms of CostRollupDef.tla as invariants); every '
+             'configuration TLC visits is turned into a real input and run (quick: 260 sampled), Drilling.tla vectors are replayed '
+             'into calculate_total_drilling_lengths_m, and the economics snapshot of every run (grid, all 17 well-cost correlations, '
+             'examples incl. SBT) is validated stage by stage by TraceCostRollup.tla in exact rational arithmetic.',
+        note='Trusted: TLC, BigInteger rationals, float projection. Component correlations themselves are not recomputed. SUTRA/CLGS not covered.',
+        tech='TLA+ spec (CostRollup.tla) model-checked with TLC; TLC-enumerated configurations run through the code; TLC trace validation'),
     'C04': dict(
         cat='model_checking', ref='DESIGN.md section 5 C04',
         text='CashFlow.tla (cash-flow assembly loops and payback scan as a loop machine) is model-checked exhaustively over small series of every sign pattern incl. negative capital cost; the same small series are replayed into the real CalculateRevenue, calculate_npv and CalculateFinancialPerformance; economics snapshots of real runs (all end-uses, plants, economic models, add-ons, carbon, sign-pattern drivers, examples) are validated year by year by TraceCashFlow.tla in exact rational arithmetic (cf, cum, per-product revenue, NPV both conventions, IRR residual, VIR, MOIC, payback, N/A).',
